@@ -844,7 +844,12 @@ impl KotoVm {
                     self.execution_state = ExecutionState::Suspended;
                     return Ok(value);
                 }
-                Err(error) => match self.pop_call_stack_on_error(error.clone(), true) {
+                // Timeouts that were raised in a nested call into the VM (e.g. in an overridden
+                // operator or a callback) can't be caught either.
+                Err(error) => match self.pop_call_stack_on_error(
+                    error.clone(),
+                    !matches!(error.error, ErrorKind::Timeout(_)),
+                ) {
                     Ok(CatchPoint {
                         error_register: recover_register,
                         catch_ip: ip,
@@ -1430,6 +1435,10 @@ impl KotoVm {
                             }
                         }
                         Some(KIteratorOutput::Error(error)) => {
+                            // Timeouts keep their error kind so that they can't be caught
+                            if matches!(error.error, ErrorKind::Timeout(_)) {
+                                return Err(error);
+                            }
                             return runtime_error!(error.to_string());
                         }
                         None => None,
